@@ -174,12 +174,12 @@ class AccModel:
                 lcfg["kind"], old, rn, lcfg["limit"], lcfg.get("power"), lcfg.get("rng"), shift_lo)
         return up, lo
 
-    def enclosure(self, old: np.ndarray, eps: float, rel: float = 32.0):
+    def enclosure(self, old: np.ndarray, eps: float, rel: float = 32.0, floor: float = 1e-300):
         """Element-wise [lo, hi] enclosure of the documented new value when the implementation
         works with relative precision ``eps``: the bases (limit - P), (P - limit) are probed at
         +-delta (delta = 4 eps max(|limit|, |P|)) which covers their rounding, the rounding of
         a non-representable limit and the discontinuity of the sharp factor; on top a relative
-        slack ``rel``*eps on the magnitudes of the terms.  Also returns the mask of elements
+        slack ``rel``*eps on the magnitudes of the terms plus an absolute ``floor`` (underflow).  Also returns the mask of elements
         where the documented value is not decidable (NaN on some but not all probes) and
         the nominal value.  Returns None when nothing is accumulated."""
         up0, lo0 = self.terms(old)
@@ -210,7 +210,7 @@ class AccModel:
             lmin, lmax = np.nanmin(np.where(nan_l, np.inf, los), 0), np.nanmax(np.where(nan_l, -np.inf, los), 0)
             oldb = np.broadcast_to(old, shape)
             mag = np.abs(oldb) + np.maximum(np.abs(umin), np.abs(umax)) + np.maximum(np.abs(lmin), np.abs(lmax))
-            slack = rel * eps * mag + 1e-300
+            slack = rel * eps * mag + floor
             lo = oldb + umin - lmax - slack
             hi = oldb + umax - lmin + slack
             nominal = oldb + ups[0] - los[0]
